@@ -5,7 +5,7 @@ import ast
 
 from .. import pynorm
 
-from .. import pyfe, res
+from .. import pyfe, res, pya
 from ..core import AnalysisError
 
 # (reader, writer, class or None)   -- located by qualified name; a vanished anchor is an analysis error
@@ -433,13 +433,70 @@ def rule_traj(ctx, py):
     ctx.floor(R, 7)
 
 
+def rule_cond_key(ctx, py):
+    """C12.COND-KEY -- a writer emits each key on every path, except for the two idioms whose absent key reads back as the same
+    value: `units` omitted when equal to the parent's (the reader inherits the parent's), and a key omitted when its value is
+    None (the constructor default).  A key omitted under any other condition reads back as the reader's default, which is
+    not the value that was omitted."""
+    R = "C12.COND-KEY"
+    writers = [w for _, w, _ in PAIRS] + ["rdoutput.save_rdtrajectory"]
+    n = 0
+    for wq in writers:
+        f = py.fn(wq)
+        stores = [x for x in ast.walk(f) if isinstance(x, ast.Assign) and len(x.targets) == 1 and
+                  isinstance(x.targets[0], ast.Subscript) and isinstance(x.targets[0].slice, ast.Constant) and
+                  isinstance(x.targets[0].slice.value, str)]
+        for st in stores:
+            key = st.targets[0].slice.value
+            conds = []
+            p_ = pyfe.parent(st)
+            child = st
+            while p_ is not None and p_ is not f:
+                if isinstance(p_, ast.If):
+                    conds.append((p_, child in p_.body))
+                elif isinstance(p_, (ast.For, ast.While)):
+                    conds.append((p_, True))
+                child = p_
+                p_ = pyfe.parent(p_)
+            if not conds:
+                continue
+            n += 1
+            okk, why = True, ""
+            for c, in_body in conds:
+                if isinstance(c, (ast.For, ast.While)):
+                    okk, why = False, "inside a loop"
+                    break
+                other = c.orelse if in_body else c.body
+                both = any(isinstance(y, ast.Assign) and isinstance(y.targets[0], ast.Subscript) and
+                           isinstance(y.targets[0].slice, ast.Constant) and y.targets[0].slice.value == key and
+                           pyfe.src(y.targets[0].value) == pyfe.src(st.targets[0].value)
+                           for b in other for y in ast.walk(b))
+                if both:
+                    continue
+                t = pyfe.src(c.test).replace(" ", "")
+                atoms = pya.atoms(c.test, in_body)
+                none_ok = len(atoms) == 1 and atoms[0][0].endswith(" is None") and atoms[0][1] is False
+                inherit_ok = key == "units" and in_body and t.endswith(".units_system!=parent_units_system")
+                if not (none_ok or inherit_ok):
+                    okk, why = False, pyfe.src(c.test)[:60]
+                    break
+            ctx.check(okk, R, st, wq, "d[%r] written under `%s`" % (key, "; ".join(pyfe.src(c.test)[:40] if isinstance(
+                c, ast.If) else "loop" for c, _ in conds)), "omitted only when absent reads back as the same value",
+                      "the key %r is written only under `%s`: when it is omitted the reader falls back to its default, which "
+                      "need not be the value that was dropped -- the object read back differs from the one written" % (key, why))
+    ctx.floor(R, 3)
+
+
 def run(ctx):
     py = ctx.py
     rule_unitstr(ctx, py)
+    from . import c18
+    c18.rule_value_str(ctx, py, "C12.UNITSTR")
     rule_traj(ctx, py)
     rule_names(ctx, py, ctx.tier == "thorough")
     rule_arity(ctx, py)
     rule_schema(ctx, py)
+    rule_cond_key(ctx, py)
     rule_fileref(ctx, py)
     rule_dispatch(ctx, py)
     ctx.analysed["package"] = {"modules": len(py.mods), "functions": py.nfuncs}
